@@ -36,8 +36,9 @@ def replay_simulated(chk: Check, cfg: str, clauses: Set[str], num: int, depth: i
     chk.transitions += r.generated
     if not r.ok:
       raise tlc.TLCError(f'{cfg}: {r.violated} violated during simulation:\n' + r.out[-3000:])
-    for beh in behaviours:
-      rp = symtree.Replayer(clauses)
+    for bi, beh in enumerate(behaviours):
+      policy = ('all', 'roots', 'model')[bi % 3] if 'facts' in clauses else 'all'
+      rp = symtree.Replayer(clauses, facts_policy=policy)
       d = rp.replay(beh)
       chk.traces += 1
       steps_done = (d['step'] if d else len(beh) - 1)
@@ -62,7 +63,7 @@ def replay_simulated(chk: Check, cfg: str, clauses: Set[str], num: int, depth: i
         claimed = in_scope(d)
       if claimed:
         sig = {'action': d['act'][0], 'clause': clause}
-        chk.violation(sig, {'cfg': cfg, 'step': d['step'], 'act': d['act'], 'what': d['detail'],
+        chk.violation(sig, {'cfg': cfg, 'step': d['step'], 'act': d['act'], 'what': d['detail'], 'facts_policy': policy,
                             'history': [s.state['act'] for s in beh[1:d['step'] + 1]]})
       else:
         chk.count('out_of_scope_divergence:' + d['act'][0] + ':' + clause)
@@ -90,7 +91,7 @@ def replay_file(chk: Check, path: str, clauses: Set[str], in_scope=None) -> None
   chk.require(len(behaviours) == 1 and len(behaviours[0]) == len(hist) + 1,
               f'the specification does not admit the recorded history (got {len(behaviours[0]) - 1 if behaviours else 0} '
               f'of {len(hist)} steps)')
-  rp = symtree.Replayer(clauses)
+  rp = symtree.Replayer(clauses, facts_policy=det.get('facts_policy', 'all'))
   dv = rp.replay(behaviours[0])
   chk.traces += 1
   chk.evaluations += len(hist)
@@ -106,7 +107,8 @@ def replay_file(chk: Check, path: str, clauses: Set[str], in_scope=None) -> None
     claimed = in_scope(dv)
   if claimed:
     chk.violation({'action': dv['act'][0], 'clause': dv['clause']},
-                  {'cfg': det['cfg'], 'step': dv['step'], 'act': dv['act'], 'what': dv['detail'], 'history': hist[:dv['step']]})
+                  {'cfg': det['cfg'], 'step': dv['step'], 'act': dv['act'], 'what': dv['detail'],
+                   'facts_policy': det.get('facts_policy', 'all'), 'history': hist[:dv['step']]})
   else:
     print(f'replay: divergence outside this property: {dv["act"]} {dv["clause"]} {dv["detail"]}')
 
@@ -115,7 +117,8 @@ TREE_VARS = ('kind', 'ditems', 'litems', 'parent', 'pkey', 'sealed', 'accw', 'su
 
 
 def replay_transitions(chk: Check, cfg_states: str, cfg_step: str, clauses: Set[str], in_scope=None,
-                       max_states: Optional[int] = None, seed: int = 0) -> Dict[str, int]:
+                       max_states: Optional[int] = None, seed: int = 0,
+                       max_transitions: Optional[int] = None) -> Dict[str, int]:
   """One implementation test per transition.
 
   Phase 1: exhaustive TLC run (cfg_states, with VIEW) dumps every distinct state within its depth bound.
@@ -139,6 +142,9 @@ def replay_transitions(chk: Check, cfg_states: str, cfg_step: str, clauses: Set[
   chk.add_tlc(r2)
   hits: Dict[str, int] = {}
   n_tr = 0
+  edges2 = sorted(edges2, key=lambda e: (str(e[0]), str(e[1])))
+  if max_transitions is not None and len(edges2) > max_transitions:
+    edges2 = random.Random(seed + 7).sample(edges2, max_transitions)
   for src_id, dst_id, _, _ in edges2:
     if src_id == dst_id or src_id not in nodes2 or dst_id not in nodes2:
       continue
